@@ -111,7 +111,17 @@ def marker(kind, node):
     return n
 
 
+def _safe_setattr(obj, name, value):
+    if isinstance(obj, Instance):
+        obj.__dict__[name] = value
+    elif isinstance(obj, (Record, ast.AST)) or type(obj).__module__.startswith("ovldlint."):
+        setattr(obj, name, value)
+    else:
+        raise AnalysisError(f"interpretation: setattr on {type(obj).__name__}")
+
+
 SAFE_BUILTINS = {
+    "setattr": _safe_setattr,
     "isinstance": isinstance,
     "len": len,
     "enumerate": lambda x, start=0: list(enumerate(x, start)),
@@ -133,6 +143,7 @@ SAFE_BUILTINS = {
     "id": id,
     "sum": sum,
     "map": lambda f, *xs: [f(*a) for a in zip(*xs)],
+    "filter": lambda f, xs: [x for x in xs if (f(x) if f is not None else x)],
     "str": str,
     "repr": repr,
     "min": min,
@@ -430,6 +441,9 @@ class HostInterp:
                 obj.__dict__[target.attr] = value
             elif isinstance(obj, (ast.AST, Record)):
                 setattr(obj, target.attr, value)
+            elif isinstance(obj, self.host_types) and type(obj).__module__.startswith("ovldlint."):
+                # a stand-in object supplied by the analysis
+                setattr(obj, target.attr, value)
             else:
                 raise AnalysisError("rewriter interpretation: attribute store on a non-node")
         elif isinstance(target, ast.Subscript):
@@ -488,7 +502,7 @@ class HostInterp:
                 raise AnalysisError(f"rewriter interpretation: unknown attribute self.{e.attr}")
             if isinstance(obj, ast.AST):
                 return getattr(obj, e.attr)
-            if isinstance(obj, self.host_types) and not e.attr.startswith("_"):
+            if isinstance(obj, self.host_types) and (not e.attr.startswith("_") or (type(obj).__module__.startswith("ovldlint.") and hasattr(obj, e.attr))):
                 return getattr(obj, e.attr)
             import types as _types
             import typing as _typing
